@@ -361,6 +361,8 @@ var exprSites = []exprSite{
 	{"step.with", siteString, false, false, true},
 	{"step.timeout-minutes", siteOne, false, true, false},
 	{"step.flow", siteString, false, false, true},
+	// filter values are also visited by the glob rule (which computes columns from the same *Pos)
+	{"on.push.paths", siteString, false, false, true},
 }
 
 // place puts the scalar source at the site; returns the node that holds it.
@@ -644,6 +646,12 @@ func genExprSpec(r *hx.Rng, id int) Spec {
 	if site.model == siteString {
 		kinds = append(kinds, "tmpl")
 	}
+	pool := cleanExprs
+	if site.name == "on.push.paths" {
+		// no context is available in a filter value: syntax errors only, context-free earlier placeholders
+		kinds = []string{"lexer", "parser"}
+		pool = []string{"1", "true", "2 < 3", "!false", "(1)"}
+	}
 	s.Kind = kinds[r.Intn(len(kinds))]
 	s.Style = r.Intn(3)
 	s.Flow = site.flowable && r.Chance(2, 5)
@@ -693,7 +701,7 @@ func genExprSpec(r *hx.Rng, id int) Spec {
 		}
 		b.WriteString(filler(r, s.Style, r.Intn(9), true))
 		for i := 0; i < nprev; i++ {
-			b.WriteString("${{" + ws(r) + cleanExprs[r.Intn(len(cleanExprs))] + ws(r) + "}}")
+			b.WriteString("${{" + ws(r) + pool[r.Intn(len(pool))] + ws(r) + "}}")
 			b.WriteString(filler(r, s.Style, r.Intn(7), false))
 		}
 	}
